@@ -19,7 +19,7 @@ func c19Fields(n int) []st.Field {
 		a := int64(1) << uint(vconcrete(sh))
 		k := nondetInt64()
 		vassume(k >= 0)
-		vassume(k < 1<<12)
+		vassume(k < 1<<24)
 		fs[i].Size = k * a // a type's size is a multiple of its alignment ...
 		if i == n-1 && nondetBool() {
 			// ... except that structlayout reports a struct's trailing zero-size
@@ -83,3 +83,34 @@ func Harness_C19_optimize_n1() { c19Optimize(1) }
 func Harness_C19_optimize_n2() { c19Optimize(2) }
 func Harness_C19_optimize_n3() { c19Optimize(3) }
 func Harness_C19_optimize_n4() { c19Optimize(4) }
+
+// default mode (without -r): the flat field list of a struct is first
+// combined into one entry per top-level field (combine), then optimized.
+// For a struct without nested structs combine must be the identity on the
+// non-padding fields, so the result obeys the same clauses.
+func c19Combine(n int) {
+	fs := c19Fields(n)
+	for i := range fs {
+		fs[i].Name = "T." + fs[i].Name
+	}
+	in := pad(append([]st.Field(nil), fs...)) // the layout structlayout prints, with padding entries
+	before := size(in)
+	comb := combine(in)
+	var fields []st.Field
+	for _, f := range comb {
+		if !f.IsPadding {
+			fields = append(fields, f)
+		}
+	}
+	optimize(fields)
+	out := pad(fields)
+	after := size(out)
+	vobserve("before", before)
+	vobserve("after", after)
+	c19CheckLayout(out, fs)
+	vassert(after <= before, "optimized layout (default mode, fields combined) is never larger than the original")
+	vreach("end")
+}
+
+func Harness_C19_combine_n2() { c19Combine(2) }
+func Harness_C19_combine_n3() { c19Combine(3) }
